@@ -165,7 +165,7 @@ v("C02", "references_never_exclude", [("src/fixtures/resolver.rs",
 v("C05", "navigation_takes_first", [("src/fixtures/resolver.rs",
   "            .max_by_key(|def| def.line)",
   "            .min_by_key(|def| def.line)")],
-  r"(R5d|floor)\|", note="siblings now differ in another way: the reference class of the same-file stage stays 'extremum', so this variant is expected to be reported only if the key function changes class; kept as a documented limit")
+  r"R5d\|.*same-file stage is min_by_key")
 v("C05", "sibling_same_file_by_name_only", [("src/fixtures/resolver.rs",
   "        if let Some(def) = definitions.iter().find(|d| d.file_path == file_path) {\n            return Some(def.clone());\n        }\n\n        // Priority 2: conftest.py in parent directories (closest first)",
   "        if let Some(def) = definitions.iter().find(|d| d.line == 1) {\n            return Some(def.clone());\n        }\n\n        // Priority 2: conftest.py in parent directories (closest first)")],
@@ -259,12 +259,21 @@ v("C13", "seed_filter_diverges", [("src/fixtures/scanner.rs",
 v("C14", "assignment_fixture_not_editable_third_party", [("src/fixtures/analyzer.rs",
   "                            let is_third_party =\n                                file_path.to_string_lossy().contains(\"site-packages\")\n                                    || self.is_editable_install_third_party(file_path);",
   "                            let is_third_party =\n                                file_path.to_string_lossy().contains(\"site-packages\");")],
-  r"R10c\|.*visit_assignment_fixture\|is_third_party")
+  r"R10c\|.*\|is_third_party")
 v("C14", "mark_after_analysis", [("src/fixtures/scanner.rs",
-  "        self.plugin_fixture_files.insert(canonical.clone(), ());\n        if let Ok(content) = std::fs::read_to_string(&canonical) {\n            self.analyze_file_fresh(canonical, &content);\n        }",
-  "        if let Ok(content) = std::fs::read_to_string(&canonical) {\n            self.analyze_file_fresh(canonical.clone(), &content);\n        }\n        self.plugin_fixture_files.insert(canonical, ());")],
+  "        self.plugin_fixture_files.insert(canonical.clone(), ());\n\n        // Prefer the cached text (the editor buffer once the document was opened) over the\n        // on-disk text; get_file_content falls back to reading the file.\n        if let Some(content) = self.get_file_content(&canonical) {\n            self.analyze_file(file_path.to_path_buf(), &content);\n        }",
+  "        if let Some(content) = self.get_file_content(&canonical) {\n            self.analyze_file(file_path.to_path_buf(), &content);\n        }\n        self.plugin_fixture_files.insert(canonical.clone(), ());")],
   r"R10d\|")
+v("C14", "walker_skips_pytest_plugins", [("src/fixtures/imports.rs",
+  "            let plugin_modules = self.extract_pytest_plugins(&module.body);",
+  "            let plugin_modules: Vec<String> = Vec::new();")],
+  r"R10e\|.*compute_imported_fixtures")
 v("C15", "new_unconverted_column", [("src/providers/call_hierarchy.rs",
   "        let Some(defs) = self.fixture_db.definitions.get(&item.name) else {",
   "        let _probe = Position { line: 0, character: item.name.len() as u32 };\n        let Some(defs) = self.fixture_db.definitions.get(&item.name) else {")],
   r"R9a\|.*len\(\) -> Position\.character")
+
+v("C01", "same_file_takes_first", [("src/fixtures/resolver.rs",
+  "            .max_by_key(|def| def.line)",
+  "            .min_by_key(|def| def.line)")],
+  r"R5e\|.*same-file stage is min_by_key")
